@@ -82,33 +82,35 @@ end PW
 /-! ## What one uplink event may do to a link's accounting core -/
 
 /-- `c'` is `c` after some of the ACK/NAK fan-out; `sacks` are the SRTLA-ACKed numbers applied. -/
-structure CStep (sacks : List Int) (c c' : Conn) : Prop where
+structure CStep (now : Nat) (sacks : List Int) (c c' : Conn) : Prop where
   lastReceived : c'.lastReceived = c.lastReceived
   connId : c'.connId = c.connId
   connected : c'.connected = c.connected
   lastSent : c'.lastSent = c.lastSent
   keys : ∀ x, x ∈ c'.keys → x ∈ c.keys
-  proof : c'.proofMs ≠ c.proofMs → ∃ a ∈ sacks, a ∈ c.keys
+  proof : c'.proofMs ≠ c.proofMs → c'.proofMs = now ∧ ∃ a ∈ sacks, a ∈ c.keys
 
-theorem CStep.rfl' (c : Conn) : CStep [] c c :=
+theorem CStep.rfl' (now : Nat) (c : Conn) : CStep now [] c c :=
   ⟨rfl, rfl, rfl, rfl, fun _ h => h, fun h => absurd rfl h⟩
 
-theorem CStep.weaken {A B : List Int} {c c' : Conn} (h : CStep A c c') (hs : ∀ a ∈ A, a ∈ B) :
-    CStep B c c' :=
+theorem CStep.weaken {now : Nat} {A B : List Int} {c c' : Conn} (h : CStep now A c c') (hs : ∀ a ∈ A, a ∈ B) :
+    CStep now B c c' :=
   ⟨h.lastReceived, h.connId, h.connected, h.lastSent, h.keys,
-   fun hp => by obtain ⟨a, ha, hk⟩ := h.proof hp; exact ⟨a, hs a ha, hk⟩⟩
+   fun hp => by obtain ⟨hn, a, ha, hk⟩ := h.proof hp; exact ⟨hn, a, hs a ha, hk⟩⟩
 
-theorem CStep.trans {A B : List Int} {c c' c'' : Conn} (h₁ : CStep A c c') (h₂ : CStep B c' c'') :
-    CStep (A ++ B) c c'' := by
+theorem CStep.trans {now : Nat} {A B : List Int} {c c' c'' : Conn} (h₁ : CStep now A c c') (h₂ : CStep now B c' c'') :
+    CStep now (A ++ B) c c'' := by
   refine ⟨h₂.lastReceived.trans h₁.lastReceived, h₂.connId.trans h₁.connId,
     h₂.connected.trans h₁.connected, h₂.lastSent.trans h₁.lastSent,
     fun x hx => h₁.keys x (h₂.keys x hx), ?_⟩
   intro hp
   by_cases h : c'.proofMs = c.proofMs
-  · obtain ⟨a, ha, hk⟩ := h₂.proof (by rw [h]; exact hp)
-    exact ⟨a, List.mem_append_right _ ha, h₁.keys a hk⟩
-  · obtain ⟨a, ha, hk⟩ := h₁.proof h
-    exact ⟨a, List.mem_append_left _ ha, hk⟩
+  · obtain ⟨hn, a, ha, hk⟩ := h₂.proof (by rw [h]; exact hp)
+    exact ⟨hn, a, List.mem_append_right _ ha, h₁.keys a hk⟩
+  · obtain ⟨hn, a, ha, hk⟩ := h₁.proof h
+    by_cases h' : c''.proofMs = c'.proofMs
+    · exact ⟨h'.trans hn, a, List.mem_append_left _ ha, hk⟩
+    · exact ⟨(h₂.proof h').1, a, List.mem_append_left _ ha, hk⟩
 
 theorem mem_keys_filter {log : List (Int × Nat)} {p : Int × Nat → Bool} {x : Int}
     (h : x ∈ (log.filter p).map Prod.fst) : x ∈ log.map Prod.fst := by
@@ -116,16 +118,16 @@ theorem mem_keys_filter {log : List (Int × Nat)} {p : Int × Nat → Bool} {x :
   obtain ⟨e, ⟨he, -⟩, hx⟩ := h
   exact ⟨e, he, hx⟩
 
-theorem cstep_srtAck (c : Conn) (a : Int) (now : Nat) : CStep [] c (c.srtAck a now).1 := by
+theorem cstep_srtAck (c : Conn) (a : Int) (now : Nat) : CStep now [] c (c.srtAck a now).1 := by
   unfold Conn.srtAck
   split
-  · exact CStep.rfl' c
+  · exact CStep.rfl' now c
   · refine ⟨rfl, rfl, rfl, rfl, ?_, fun h => absurd rfl h⟩
     intro x hx
     simp only [keys_def] at hx ⊢
     split at hx <;> exact mem_keys_filter hx
 
-theorem cstep_nak (c : Conn) (s : Int) (now : Nat) : CStep [] c (c.nak s now).1 := by
+theorem cstep_nak (c : Conn) (s : Int) (now : Nat) : CStep now [] c (c.nak s now).1 := by
   have hk := nak_keys c s now
   refine ⟨?_, ?_, ?_, ?_, ?_, ?_⟩
   · unfold Conn.nak; split <;> rfl
@@ -147,7 +149,7 @@ theorem srtlaAck_found_iff (c : Conn) (s : Int) (cl : Bool) (now : Nat) :
     simpa using hn
 
 theorem cstep_srtlaAck (c : Conn) (s : Int) (cl : Bool) (now : Nat) :
-    CStep [s] c (c.srtlaAck s cl now).1 := by
+    CStep now [s] c (c.srtlaAck s cl now).1 := by
   have hk := srtlaAck_keys c s cl now
   refine ⟨?_, ?_, ?_, ?_, ?_, ?_⟩
   · unfold Conn.srtlaAck; split <;> (try split) <;> rfl
@@ -157,51 +159,55 @@ theorem cstep_srtlaAck (c : Conn) (s : Int) (cl : Bool) (now : Nat) :
   · intro x hx; rw [hk] at hx; exact (List.mem_filter.mp hx).1
   · intro h
     by_cases hm : s ∈ c.keys
-    · exact ⟨s, by simp, hm⟩
+    · refine ⟨?_, s, by simp, hm⟩
+      unfold Conn.srtlaAck
+      rw [if_pos ((any_iff_mem_keys c.log s).mpr hm)]
+      dsimp only
+      split <;> rfl
     · exfalso; apply h
       unfold Conn.srtlaAck
       rw [if_neg (fun hh => hm ((any_iff_mem_keys c.log s).mp hh))]
 
-theorem cstep_ackGlobal (c : Conn) : CStep [] c c.ackGlobal := by
+theorem cstep_ackGlobal (now : Nat) (c : Conn) : CStep now [] c c.ackGlobal := by
   unfold Conn.ackGlobal
   split
   · exact ⟨rfl, rfl, rfl, rfl, fun _ h => h, fun h => absurd rfl h⟩
-  · exact CStep.rfl' c
+  · exact CStep.rfl' now c
 
 /-! ### Lifting to the fan-out over all links -/
 
-theorem pw_updateAt (A : List Int) (ls : Links) (i : Nat) (f : Conn → Conn)
-    (h : ∀ c, ls[i]? = some c → CStep A c (f c)) : PW (CStep A) ls (updateAt ls i f) := by
+theorem pw_updateAt (now : Nat) (A : List Int) (ls : Links) (i : Nat) (f : Conn → Conn)
+    (h : ∀ c, ls[i]? = some c → CStep now A c (f c)) : PW (CStep now A) ls (updateAt ls i f) := by
   unfold updateAt
   apply PW.mapIdx_right
   intro j a ha
   split
   · rename_i hji; subst hji; exact h a ha
-  · exact (CStep.rfl' a).weaken (by simp)
+  · exact (CStep.rfl' now a).weaken (by simp)
 
 theorem pw_srtlaAckOthers (ls : Links) (j skip : Nat) (seq : Int) (cl : Bool) (now : Nat) :
-    PW (CStep [seq]) ls (srtlaAckOthers ls j skip seq cl now) := by
+    PW (CStep now [seq]) ls (srtlaAckOthers ls j skip seq cl now) := by
   induction ls generalizing j with
   | nil => simp [srtlaAckOthers]; exact PW.nil
   | cons c rest ih =>
     unfold srtlaAckOthers
     split
-    · exact PW.cons ((CStep.rfl' c).weaken (by simp)) (ih (j + 1))
+    · exact PW.cons ((CStep.rfl' now c).weaken (by simp)) (ih (j + 1))
     · dsimp only
       split
-      · exact PW.cons (cstep_srtlaAck c seq cl now) (PW.refl (fun a => (CStep.rfl' a).weaken (by simp)) rest)
-      · exact PW.cons ((CStep.rfl' c).weaken (by simp)) (ih (j + 1))
+      · exact PW.cons (cstep_srtlaAck c seq cl now) (PW.refl (fun a => (CStep.rfl' now a).weaken (by simp)) rest)
+      · exact PW.cons ((CStep.rfl' now c).weaken (by simp)) (ih (j + 1))
 
 theorem pw_evSrtlaAck (ls : Links) (idx : Nat) (seq : Int) (cl : Bool) (now : Nat) :
-    PW (CStep [seq]) ls (evSrtlaAck ls idx seq cl now) := by
+    PW (CStep now [seq]) ls (evSrtlaAck ls idx seq cl now) := by
   unfold evSrtlaAck
-  have hg : ∀ l : Links, PW (CStep []) l (l.map Conn.ackGlobal) :=
-    fun l => PW.map_right _ l cstep_ackGlobal
-  have hcomb : ∀ l1 : Links, PW (CStep [seq]) ls l1 → PW (CStep [seq]) ls (l1.map Conn.ackGlobal) :=
+  have hg : ∀ l : Links, PW (CStep now []) l (l.map Conn.ackGlobal) :=
+    fun l => PW.map_right _ l (cstep_ackGlobal now)
+  have hcomb : ∀ l1 : Links, PW (CStep now [seq]) ls l1 → PW (CStep now [seq]) ls (l1.map Conn.ackGlobal) :=
     fun l1 h => PW.trans h (hg l1) (fun a b c h1 h2 => by simpa using h1.trans h2)
   apply hcomb
   split
-  · exact PW.refl (fun a => (CStep.rfl' a).weaken (by simp)) ls
+  · exact PW.refl (fun a => (CStep.rfl' now a).weaken (by simp)) ls
   · rename_i c hc
     dsimp only
     split
@@ -212,18 +218,18 @@ theorem pw_evSrtlaAck (ls : Links) (idx : Nat) (seq : Int) (cl : Bool) (now : Na
     · exact pw_srtlaAckOthers ls 0 idx seq cl now
 
 theorem pw_nakScan (ls : Links) (seq : Int) (now : Nat) :
-    PW (CStep []) ls (nakScan ls seq now).1 := by
+    PW (CStep now []) ls (nakScan ls seq now).1 := by
   induction ls with
   | nil => simp [nakScan]; exact PW.nil
   | cons c rest ih =>
     unfold nakScan
     dsimp only
     split
-    · exact PW.cons (cstep_nak c seq now) (PW.refl CStep.rfl' rest)
-    · exact PW.cons (CStep.rfl' c) ih
+    · exact PW.cons (cstep_nak c seq now) (PW.refl (CStep.rfl' now) rest)
+    · exact PW.cons (CStep.rfl' now c) ih
 
 theorem pw_attributeNak (ls : Links) (trk : Tracker) (nak now : Nat) :
-    PW (CStep []) ls (attributeNak ls trk nak now).1 := by
+    PW (CStep now []) ls (attributeNak ls trk nak now).1 := by
   unfold attributeNak
   dsimp only
   split
@@ -235,25 +241,25 @@ theorem pw_attributeNak (ls : Links) (trk : Tracker) (nak now : Nat) :
           rename_i c0 hc0 _
           rw [hc0] at hc; cases hc
           exact cstep_nak c0 (toI32 nak) now
-        · exact PW.refl CStep.rfl' ls
-      · exact PW.refl CStep.rfl' ls
+        · exact PW.refl (CStep.rfl' now) ls
+      · exact PW.refl (CStep.rfl' now) ls
     · exact pw_nakScan ls _ now
   · exact pw_nakScan ls _ now
 
 theorem pw_fold_sacks (sacks : List Nat) (cs : Links) (idx : Nat) (cl : Bool) (now : Nat) :
-    PW (CStep (sacks.map toI32)) cs
+    PW (CStep now (sacks.map toI32)) cs
       (sacks.foldl (fun cs a => evSrtlaAck cs idx (toI32 a) cl now) cs) := by
   induction sacks generalizing cs with
-  | nil => exact PW.refl CStep.rfl' cs
+  | nil => exact PW.refl (CStep.rfl' now) cs
   | cons a as ih =>
     simp only [List.foldl_cons, List.map_cons]
     exact PW.trans (pw_evSrtlaAck cs idx (toI32 a) cl now) (ih _)
       (fun x y z h1 h2 => by simpa using h1.trans h2)
 
 theorem pw_fold_naks (naks : List Nat) (cs : Links) (trk : Tracker) (now : Nat) :
-    PW (CStep []) cs (naks.foldl (fun cs n => (attributeNak cs trk n now).1) cs) := by
+    PW (CStep now []) cs (naks.foldl (fun cs n => (attributeNak cs trk n now).1) cs) := by
   induction naks generalizing cs with
-  | nil => exact PW.refl CStep.rfl' cs
+  | nil => exact PW.refl (CStep.rfl' now) cs
   | cons a as ih =>
     simp only [List.foldl_cons]
     exact PW.trans (pw_attributeNak cs trk a now) (ih _)
@@ -315,13 +321,13 @@ theorem sameShell_ackFold (acks : List Nat) (now : Nat) (l : FLink F) :
   | cons a as ih => exact (sameShell_srtAck l _ now).trans (ih _)
 
 theorem cstep_ackFold (acks : List Nat) (now : Nat) (l : FLink F) :
-    CStep [] l.core (ackFold acks now l).core := by
+    CStep now [] l.core (ackFold acks now l).core := by
   unfold ackFold
   induction acks generalizing l with
-  | nil => exact CStep.rfl' _
+  | nil => exact CStep.rfl' now _
   | cons a as ih =>
     simp only [List.foldl_cons]
-    have h1 : CStep [] l.core (l.srtAck (toI32 a) now).core := by
+    have h1 : CStep now [] l.core (l.srtAck (toI32 a) now).core := by
       rw [core_srtAck]; exact cstep_srtAck _ _ _
     simpa using h1.trans (ih (l.srtAck (toI32 a) now))
 
@@ -365,7 +371,7 @@ theorem pw_withCores {R : Conn → Conn → Prop} (ls : List (FLink F)) (cs : Li
 
 /-- What `process_connection_events` does to one link. -/
 structure EvStep (sacks : List Int) (acks : List Nat) (now : Nat) (l l' : FLink F) : Prop where
-  core : CStep sacks l.core l'.core
+  core : CStep now sacks l.core l'.core
   rtt : l'.rtt = (ackFold acks now l).rtt
   shell : SameShell l l'
 
@@ -469,8 +475,82 @@ theorem processUplinkPacket_eq (l : FLink F) (idx : Nat) (reg : Reg.Reg) (ck : B
     · simp [h7, stamp]
     by_cases h8 : pt = 36864
     · simp only [h8, kaLink, stamp]
-      generalize FLink.handleKeepaliveResponse _ data now = r
+      generalize @FLink.handleKeepaliveResponse F _ _ data now = r
       obtain ⟨l2, _ | x⟩ := r <;> simp
     simp [h5, h6, h7, h8, stamp]
+
+/-! ## `handle_uplink_packet` = lookup → arm → fan-out -/
+
+omit [Scalar F] in
+theorem findIdx_get (ls : List (FLink F)) (cid idx : Nat)
+    (h : ls.findIdx? (·.core.connId == cid) = some idx) :
+    ∃ l, ls[idx]? = some l ∧ l.core.connId = cid := by
+  obtain ⟨hlt, hp, -⟩ := List.findIdx?_eq_some_iff_getElem.mp h
+  exact ⟨ls[idx], List.getElem?_eq_getElem hlt, by simpa using hp⟩
+
+omit [Scalar F] in
+theorem getElem?_setAt (ls : List (FLink F)) (i j : Nat) (x : FLink F) :
+    (setAt ls i x)[j]? = if j = i then (ls[j]?).map (fun _ => x) else ls[j]? := by
+  unfold setAt
+  rw [List.getElem?_mapIdx]
+  split
+  · rfl
+  · cases ls[j]? <;> rfl
+
+/-- The arrival link after its arm of `process_uplink_packet` and the deferred REG1 send stamp. -/
+def arrival (l : FLink F) (idx : Nat) (reg : Reg.Reg) (ck : Bool) (data : Codec.Bytes) (now : Nat) :
+    FLink F :=
+  match (pupSpec l idx reg ck data now).2.2.reg1Send with
+  | some _ =>
+    { (pupSpec l idx reg ck data now).1 with
+        core := { (pupSpec l idx reg ck data now).1.core with lastSent := some now } }
+  | none => (pupSpec l idx reg ck data now).1
+
+theorem handleUplinkPacket_eq (s : Sys F) (cid : Nat) (data : Codec.Bytes) (now idx : Nat) (l : FLink F)
+    (hne : data ≠ []) (hidx : s.links.findIdx? (·.core.connId == cid) = some idx)
+    (hl : s.links[idx]? = some l) :
+    handleUplinkPacket s cid data now =
+      ((processConnectionEvents
+          { s with links := setAt s.links idx (arrival l idx s.reg s.clientKnown data now),
+                   reg := (pupSpec l idx s.reg s.clientKnown data now).2.1 }
+          idx (pupSpec l idx s.reg s.clientKnown data now).2.2 now).1,
+       { wire := match (pupSpec l idx s.reg s.clientKnown data now).2.2.reg1Send with
+           | some p => [(cid, p)]
+           | none => [],
+         client := (pupSpec l idx s.reg s.clientKnown data now).2.2.direct ++
+           (if s.clientKnown then (pupSpec l idx s.reg s.clientKnown data now).2.2.forward else []) }) := by
+  unfold handleUplinkPacket
+  have he : data.isEmpty = false := by cases data <;> simp_all
+  simp only [he, hidx, hl, processUplinkPacket_eq, arrival]
+  generalize pupSpec l idx s.reg s.clientKnown data now = r
+  obtain ⟨l1, reg1, inc⟩ := r
+  cases inc.reg1Send <;> simp [processConnectionEvents]
+
+/-- Every link after one uplink event, relative to the same position before it. -/
+theorem handleUplinkPacket_links (s : Sys F) (cid : Nat) (data : Codec.Bytes) (now idx : Nat) (l : FLink F)
+    (hne : data ≠ []) (hidx : s.links.findIdx? (·.core.connId == cid) = some idx)
+    (hl : s.links[idx]? = some l) :
+    PW (fun (a b : FLink F) => ∃ a', (a' = a ∨ (a = l ∧ a' = arrival l idx s.reg s.clientKnown data now)) ∧
+          EvStep ((pupSpec l idx s.reg s.clientKnown data now).2.2.sacks.map toI32)
+            (pupSpec l idx s.reg s.clientKnown data now).2.2.acks now a' b)
+      s.links (handleUplinkPacket s cid data now).1.links := by
+  rw [handleUplinkPacket_eq s cid data now idx l hne hidx hl]
+  dsimp only
+  have h1 : PW (fun (a a' : FLink F) => a' = a ∨ (a = l ∧ a' = arrival l idx s.reg s.clientKnown data now))
+      s.links (setAt s.links idx (arrival l idx s.reg s.clientKnown data now)) := by
+    refine ⟨by simp [setAt], ?_⟩
+    intro j a b ha hb
+    rw [getElem?_setAt, ha] at hb
+    split at hb
+    · rename_i hj; subst hj
+      rw [hl] at ha; cases ha
+      simp at hb
+      exact Or.inr ⟨rfl, hb.symm⟩
+    · cases hb; exact Or.inl rfl
+  have h2 := pCE_links
+    ({ s with links := setAt s.links idx (arrival l idx s.reg s.clientKnown data now),
+              reg := (pupSpec l idx s.reg s.clientKnown data now).2.1 } : Sys F)
+    idx (pupSpec l idx s.reg s.clientKnown data now).2.2 now
+  exact PW.trans h1 h2 (fun a a' b h h' => ⟨a', h, h'⟩)
 
 end Srtla.Uplink
